@@ -101,7 +101,7 @@ def check_cfg(ctx, fx, cfg):
             ctx.viol("R07.3", inst, "refresh body not found", fn=f["def"], site=f["loc"])
             continue
         b = ctx.body(fx, co)
-        n = nfa.build(b, A)
+        n = nfa.build(b, A, fx, depth=2)
         v1, p1 = nfa.check(n, RefreshSpec(kind))
         ctx.count_nfa(n.stats(), p1)
         for v in v1:
